@@ -89,7 +89,7 @@ where
 // ---------------------------------------------------------------------------------------------
 
 /// number of whole pixels in `len` bytes
-fn pixel_count(bits: u32, len: usize) -> usize {
+pub(crate) fn pixel_count(bits: u32, len: usize) -> usize {
     len * 8 / bits as usize
 }
 
@@ -97,7 +97,7 @@ fn pixel_count(bits: u32, len: usize) -> usize {
 /// LittleEndianMsb0: multi-byte pixels least significant byte first; sub-byte pixels packed from
 /// the most significant bits of each byte downwards. BigEndianLsb0: most significant byte first;
 /// sub-byte pixels packed from the least significant bits upwards.
-fn ref_bit(bits: u32, order: u32, i: usize, k: u32) -> (usize, u32) {
+pub(crate) fn ref_bit(bits: u32, order: u32, i: usize, k: u32) -> (usize, u32) {
     if bits < 8 {
         let ppb = (8 / bits) as usize;
         let slot = (i % ppb) as u32;
@@ -111,11 +111,11 @@ fn ref_bit(bits: u32, order: u32, i: usize, k: u32) -> (usize, u32) {
     }
 }
 
-fn ref_fits(bits: u32, len: usize, i: usize) -> bool {
+pub(crate) fn ref_fits(bits: u32, len: usize, i: usize) -> bool {
     (i as u128 + 1) * bits as u128 <= 8 * len as u128
 }
 
-fn ref_load(bits: u32, order: u32, buf: &[u8], i: usize) -> Option<u32> {
+pub(crate) fn ref_load(bits: u32, order: u32, buf: &[u8], i: usize) -> Option<u32> {
     if !ref_fits(bits, buf.len(), i) {
         return None;
     }
@@ -127,7 +127,7 @@ fn ref_load(bits: u32, order: u32, buf: &[u8], i: usize) -> Option<u32> {
     Some(v)
 }
 
-fn mask(bits: u32) -> u32 {
+pub(crate) fn mask(bits: u32) -> u32 {
     if bits == 32 {
         u32::MAX
     } else {
